@@ -27,6 +27,14 @@ CHECKS = {
   technique="TLA+ spec (NodeClock.tla) model-checked with TLC over writes/remote deltas/checkpoints/crash/recovery; exported lives replayed on a real ReplicatedShardedState; traces validated by TLC (NodeClockTrace.tla)",
   text="design level: StampAboveSeen, NeverRepeats, NewestWins, ClockDominates over all interleavings of local writes, remote stamps, checkpoints and up to 2 crashes, with the as-built counterexample; implementation level: every exported life and thousands of random ones run on a real node (16 shard actors, snapshot_state/apply_recovered_state as restart) and TLC checks every issued stamp against everything the running node has observed for the key",
   note="durability of acknowledged writes assumed (C09/C12); stamps compared per key because the code has one clock per shard"),
+ "C18": dict(
+  technique="TLA+ spec (AntiEntropy.tla) model-checked with TLC incl. liveness (EventuallyInSync under weak fairness); TLC-exported state pairs rebuilt as real replica states on keys colliding in real digest buckets; real StateDigest and run_anti_entropy_sync results judged by TLC (AeTrace.tla)",
+  text="design level: digests as injective functions of bucket content, sync rounds under a key limit with a rotating sender are live for Limit 1 and 2, the fixed-prefix sender is not; implementation level: for every exported pair and thousands of random histories (independent maps, shuffled merge orders, hashes with equal outer stamps, tombstones) differs_from / divergent_buckets must equal the truth TLC computes from the observable projection, and every real sync round must move keys only to the merge and end merged within the bound",
+  note="hash collisions not modelled; 2 replicas; limits 1-3; kinds fixed per key"),
+ "C19": dict(
+  technique="TLA+ spec (Placement.tla) model-checked with TLC over every ring position assignment; TLC-enumerated memberships/join orders replayed on the real HashRing (observed through a hook) and GossipRouter/GossipState; results judged by TLC (PlaceTrace.tla) against Replicas/Targets recomputed from the observed ring",
+  text="design level: size/distinctness, prefix-in-rf, minimal disruption and router coverage for all rings of 3 nodes x 2 vnodes, with the as-built from_config counterexample; implementation level: for every join order (with leave/rejoin) of clusters up to 4-5 nodes and random memberships up to 6, replica lists for every rf, the ring with one more node, and the routing tables of every sender (new, from_config, queue_deltas) must equal what the specification derives from the observed ring",
+  note="positions as ranks; vnode counts {1,2,3,150}; 12 keys per case"),
  "C07": dict(
   technique="TLA+ spec (Crdt.tla) model-checked with TLC; TLC-exported operation sequences replayed on the real ShardReplicaState/ReplicatedValue; recorded traces validated by TLC (CrdtTrace.tla)",
   text="TLC checks the three laws, in the observable projection, on every configuration of 3 replicas of one key reachable within the step bound; one operation sequence per distinct configuration is replayed on the real code and TLC validates every step (refinement of Merge) and the laws on the results of the real merge for all pairs and triples; random longer runs over all six CRDT kinds are validated the same way",
